@@ -127,7 +127,7 @@ var regexes = []rePool{
 	{`(x)(y)`, []string{"xy"}, []string{"x", "yx"}},
 	{`a.b`, []string{"a.b", "axb"}, []string{"ab"}},
 }
-var badRegexes = []string{`(`, `[a`, `a{2,1}`, `**`, `x)`}
+var badRegexes = []string{`(`, `[a`, `a{2,1}`, `**`, `x)`, `a)(b`, `)|(`, `x)y(z`, `)`, `a)|(b)|(c`}
 
 var holeVals = []string{"a", "b", "1", "x", "ab", "a%2Fb", "%41", "%zz", "a b", "a.b", "%", "é", "v1", "zz", "42", "xy", "ac"}
 
